@@ -38,6 +38,12 @@ Seqs  == UNION {[1..n -> 0..(K - 1)] : n \in 0..MaxLen}
 RowsV == {<<x, y, NINF>> : x \in Vals, y \in Vals}
 Mats  == UNION {[1..m -> RowsV] : m \in 1..MaxM}
 
+\* A matrix whose 8-bit rounding REORDERS two windows (rows (0,15), (0,121), (0,137): the word (1,1,0) scores 136 with
+\* 8-bit score 15 + 114 = 129, the word (0,0,1) scores 137 with 8-bit score 128): substituted for Mats in the
+\* configurations MC_Scanner_reorder (repaired bound: MaxRefines holds) and MC_Scanner_neg_dscore_bound (best_discrete
+\* taken from the candidate's 8-bit score, as originally coded: the better window is pruned).
+WitnessMats == {<< <<0, 15, NINF>>, <<0, 121, NINF>>, <<0, 137, NINF>> >>}
+
 L == Len(seq)
 M == Len(pssm)
 R == NRows(L, C)
@@ -53,10 +59,12 @@ DScore(i) == SatScore(D, seq, i, W)
 Real(i)   == WindowScore(pssm, seq, i, W)
 Limit == IF SeqRowsOnly THEN R ELSE R + Wrap
 
-ThrRange == (OffS - 1)..(MaxSum(pssm, K) + 1)
+Thrs(p) == (OffsetSum(p, K) - 1)..(MaxSum(p, K) + 1)       \* every threshold from below the minimum to above the maximum
+WitnessThrs(p) == {-1, 0, 15, 136, 137, 138}
+WitnessSeqs == {<<2, 1, 1, 0, 0, 0, 0, 1>>, <<0, 0, 0, 1, 1, 0>>}
 
 Init == /\ seq \in Seqs /\ pssm \in Mats /\ bs \in BlockSizes
-        /\ thr \in (OffsetSum(pssm, K) - 1)..(MaxSum(pssm, K) + 1)
+        /\ thr \in Thrs(pssm)
         /\ row = 0 /\ hits = <<>> /\ yielded = {} /\ status = "run" /\ maxret = <<>>
 
 \* cells of the block in the order Threshold::threshold yields them (row-major)
